@@ -42,22 +42,34 @@ def Src.read (s : Src α) (l : Nat) : (Int × IOErr × List α) × Src α :=
       let n := min k.toNat l
       ((n, e, s.bytes n), { s with pos := s.pos + n, script := rest })
 
+/-- Every LinkBuffer call an adapter makes goes through this function (the only place `specStep` is applied):
+the queue's answer, and the ghost flag "this and every earlier call was inside the C01 `Contract`". -/
+def callQ [DecidableEq α] (q : Q α) (inC : Bool) (op : Op α) : Q α × Expect α × Bool :=
+  ((specStep q op).1, (specStep q op).2, inC && Contract q op)
+
 structure ZCReader (α : Type) where
   src : Src α
   q : Q α := {}
   /-- ghost: every byte handed to the caller by a consuming read, in order -/
   delivered : List α := []
+  /-- ghost: every call made on `q` so far was inside the C01 `Contract` -/
+  inC : Bool := true
+
+/-- a call on the reader's buffer -/
+def ZCReader.call [DecidableEq α] (r : ZCReader α) (op : Op α) : ZCReader α × Expect α :=
+  let (q', e, c) := callQ r.q r.inC op
+  ({ r with q := q', inC := c }, e)
 
 /-- one round of `fill`'s loop body: Malloc(block4k); Read; MallocAck(num); Flush. Returns the error of the round. -/
 def ZCReader.round [DecidableEq α] [Inhabited α] (block4k : Nat) (r : ZCReader α) : ZCReader α × Option AErr :=
   let ((num, e, data), src') := r.src.read block4k
-  let q1 := (specStep r.q (.malloc block4k (data ++ List.replicate (block4k - data.length) default))).1
+  let r1 := (r.call (.malloc block4k (data ++ List.replicate (block4k - data.length) default))).1
   let (num', err) : Int × Option AErr :=
     if num < 0 then (0, match e with | .none => some .negative | .eof => some .eof | .other => some .src)
     else (num, match e with | .none => none | .eof => some .eof | .other => some .src)
-  let q2 := (specStep q1 (.mallocAck num')).1
-  let q3 := (specStep q2 .flush).1
-  ({ r with src := src', q := q3 }, err)
+  let r2 := (r1.call (.mallocAck num')).1
+  let r3 := (r2.call .flush).1
+  ({ r3 with src := src' }, err)
 
 /-- `waitRead(n)`: `for buf.Len() < n { err = fill(n); if err != nil { return err } }`; `fill` runs up to
 maxReadCycle rounds while `Len < n && err == nil`, so the two nested loops are one loop over rounds.
@@ -89,12 +101,12 @@ def ofExpect : Expect α → Res α
 
 /-- run a buffer op; `consumed` says whether returned bytes leave the stream -/
 def ZCReader.bufOp [DecidableEq α] (r : ZCReader α) (op : Op α) (consumes : Bool) : ZCReader α × ARes α :=
-  let (q', e) := specStep r.q op
+  let (r', e) := r.call op
   match ofExpect e with
-  | .err => ({ r with q := q' }, .fail .buf)
+  | .err => (r', .fail .buf)
   | res =>
     let got : List α := match res with | .bytes bs => bs | _ => []
-    ({ r with q := q', delivered := if consumes then r.delivered ++ got else r.delivered }, .ok res)
+    ({ r' with delivered := if consumes then r.delivered ++ got else r.delivered }, .ok res)
 
 def ZCReader.step [DecidableEq α] [Inhabited α] (block4k : Nat) (r : ZCReader α) : ROp α → ZCReader α × ARes α
   | .next n =>
@@ -142,6 +154,13 @@ structure ZCWriter (α : Type) where
   q : Q α := {}
   /-- ghost: every byte that was flushed (submitted) so far, in order -/
   submitted : List α := []
+  /-- ghost: every call made on `q` so far was inside the C01 `Contract` -/
+  inC : Bool := true
+
+/-- a call on the writer's buffer -/
+def ZCWriter.call [DecidableEq α] (w : ZCWriter α) (op : Op α) : ZCWriter α × Expect α :=
+  let (q', e, c) := callQ w.q w.inC op
+  ({ w with q := q', inC := c }, e)
 
 inductive WOp (α : Type) where
   | malloc (n : Int) (d : List α) | writeBinary (p : List α) (pcap : Nat) | writeByte (a : α)
@@ -151,35 +170,40 @@ deriving Repr
 /-- `zcWriter.Flush`: buf.Flush(); n, err := w.Write(buf.Bytes()); if n > 0 { buf.Skip(n); buf.Release() }; return err -/
 def ZCWriter.flush [DecidableEq α] (w : ZCWriter α) : ZCWriter α × ARes α :=
   let newly := (w.q.items.filter (! ·.2)).map (·.1)
-  let q1 := (specStep w.q .flush).1
-  let bytes := q1.flushedBytes
-  let ((n, e), sink') := w.sink.write bytes
-  let q2 := if n > 0 then (specStep (specStep q1 (.skip n)).1 .release).1 else q1
-  ({ sink := sink', q := q2, submitted := w.submitted ++ newly },
+  let w1 := (w.call .flush).1
+  let (w1, eb) := w1.call .bytes
+  let bytes : List α := match ofExpect eb with | .bytes bs => bs | _ => []
+  let ((n, e), sink') := w1.sink.write bytes
+  let w2 := if n > 0 then ((w1.call (.skip n)).1.call .release).1 else w1
+  ({ w2 with sink := sink', submitted := w.submitted ++ newly },
    match e with | .none => .ok .unit | _ => .fail .src)
 
 def ZCWriter.step [DecidableEq α] (w : ZCWriter α) : WOp α → ZCWriter α × ARes α
-  | .malloc n d => ({ w with q := (specStep w.q (.malloc n d)).1 }, .ok .unit)
-  | .writeBinary p c => ({ w with q := (specStep w.q (.writeBinary p c)).1 }, .ok (.num p.length))
-  | .writeByte a => ({ w with q := (specStep w.q (.writeByte a)).1 }, .ok .unit)
-  | .mallocAck n => ({ w with q := (specStep w.q (.mallocAck n)).1 }, if n < 0 then .fail .buf else .ok .unit)
+  | .malloc n d => ((w.call (.malloc n d)).1, .ok .unit)
+  | .writeBinary p c => ((w.call (.writeBinary p c)).1, .ok (.num p.length))
+  | .writeByte a => ((w.call (.writeByte a)).1, .ok .unit)
+  | .mallocAck n => ((w.call (.mallocAck n)).1, if n < 0 then .fail .buf else .ok .unit)
   | .flush => w.flush
-  | .mallocLen => (w, .ok (.num w.q.mallocLen))
+  | .mallocLen => let (w', e) := w.call .mallocLen; (w', .ok (ofExpect e))
 
-/-- `ioReader.Read(p)` with `len(p) = l` over a Reader that behaves as `q`: (n, EOF?) -/
-def ioRead [DecidableEq α] (q : Q α) (l : Nat) : Q α × List α × Bool :=
-  if l = 0 then (q, [], false)
+/-- `ioReader.Read(p)` with `len(p) = l` over a Reader that behaves as `q`: (queue, bytes copied, EOF?,
+ghost: all buffer calls inside `Contract`) -/
+def ioRead [DecidableEq α] (q : Q α) (l : Nat) : Q α × List α × Bool × Bool :=
+  if l = 0 then (q, [], false, true)
   else
-    let l := if q.len < l then q.len else l
-    if l = 0 then (q, [], true)     -- io.EOF
+    let (q, eh, c) := callQ q true .len
+    let has : Nat := match ofExpect eh with | .num h => h.toNat | _ => 0
+    let l := if has < l then has else l
+    if l = 0 then (q, [], true, c)     -- io.EOF
     else
-      let (q1, e) := specStep q (.next l)
-      let (q2, _) := specStep q1 .release
-      (q2, match ofExpect e with | .bytes bs => bs | _ => [], false)
+      let (q1, e, c) := callQ q c (.next l)
+      let (q2, _, c) := callQ q1 c .release
+      (q2, match ofExpect e with | .bytes bs => bs | _ => [], false, c)
 
-/-- `ioWriter.Write(p)`: Malloc(len(p)); copy; Flush -/
-def ioWrite [DecidableEq α] (q : Q α) (p : List α) : Q α × Nat :=
-  let q1 := (specStep q (.malloc p.length p)).1
-  ((specStep q1 .flush).1, p.length)
+/-- `ioWriter.Write(p)`: Malloc(len(p)); copy; Flush. (queue, n, ghost: all buffer calls inside `Contract`) -/
+def ioWrite [DecidableEq α] (q : Q α) (p : List α) : Q α × Nat × Bool :=
+  let (q1, _, c) := callQ q true (.malloc p.length p)
+  let (q2, _, c) := callQ q1 c .flush
+  (q2, p.length, c)
 
 end Netpoll.Adapter
